@@ -1,6 +1,7 @@
 import QuantemModel.Core.Proto
 import QuantemModel.Model.Batcher
 import QuantemModel.Model.BatcherExt
+import QuantemModel.Model.BatcherSpec
 open Lean QuantemModel QuantemModel.Proto QuantemModel.Batcher
 
 namespace DrvC09
@@ -189,8 +190,16 @@ def step (st : Unit) (j : Json) : Unit × Json :=
             | none => 0.0
           let cfg : RunCfg := { reset := reset, numIters := iters, b := b, n := n, ratio := ratio, mode := mode }
           let out := reconstructF draw stepFn valFn cfg fault st
+          -- the closed-form specification of the same call (Model/BatcherSpec.lean): no loop, no parameters, no losses
+          let spec := specCall draw cfg fault st.rng
+          let before := if reset then 0 else st.iterLosses.length
           st := out.1
           outs := outs.push (Json.mkObj [
+            ("spec", Json.mkObj [
+              ("schedule", Json.arr (spec.schedule.map natssToJson).toArray),
+              ("draws_used", Json.num (JsonNumber.fromNat (spec.gen.pos - pos0))),
+              ("n_iter_losses", Json.num (JsonNumber.fromNat (before + spec.recorded))),
+              ("raised", Json.bool spec.raised)]),
             ("schedule", Json.arr (out.2.1.map natssToJson).toArray),
             ("iter_losses", Json.arr (st.iterLosses.map floatToJson).toArray),
             ("val_losses", Json.arr (st.valLosses.map floatToJson).toArray),
